@@ -333,10 +333,10 @@ prop(
     technique="exhaustive access-control matrix by dry-run: every execute variant x sender kind x phase on live state, each cell required to be non-vacuous (same payload accepted for the role holder)",
     design_ref="DESIGN.md §4 C09",
     rule="evaluations = matrix cells executed (dry runs with checkpoint/restore on the same state). For every execute-message variant of the vAMM, engine (privileged ones), insurance fund, fee pool and the repository's price feed, with a payload that the role holder's call accepts on that state, "
-         "every other sender kind (each role holder, every contract address, trader, liquidator, stranger, former holders) must be refused with the whole storage digest unchanged; phases: before any transfer, after each of two chained transfers of every role, after re-pointing the vAMM's engine / insurance fund. "
+         "every other sender kind (each role holder, every contract address, trader, liquidator, stranger, former holders) must be refused with the whole storage digest unchanged; phases: before any transfer, after each of two chained transfers of every role, after re-pointing the vAMM's engine / insurance fund; and on a vAMM instantiated without margin engine and opened by its owner nobody at all may swap or settle funding. "
          "The role holder being refused with an authorisation error is a violation. exhaustive=true: all variants x all sender kinds x all phases are enumerated for each sampled deployment/state; payloads and states are sampled. distinct = (contract, variant, sender kind, phase, outcome).",
     exhaustive=True,
-    essential=["matrix-cells", "role-transfer-rounds", "cell:vamm:swap_input", "cell:vamm:set_open", "cell:engine:set_pause", "cell:insurance:withdraw", "cell:insurance:shutdown_vamms", "cell:fee_pool:send_token", "cell:pricefeed:append_price", "cell:engine:update_config", "cell:vamm:settle_funding"],
+    essential=["matrix-cells", "engine-unset-cells", "role-transfer-rounds", "cell:vamm:swap_input", "cell:vamm:set_open", "cell:engine:set_pause", "cell:insurance:withdraw", "cell:insurance:shutdown_vamms", "cell:fee_pool:send_token", "cell:pricefeed:append_price", "cell:engine:update_config", "cell:vamm:settle_funding"],
     text="Complete variant x sender matrix on states with live positions, before and after chained role transfers.",
     note="self-calls (sender = the contract called) are excluded: no contract in the repository messages itself and a contract cannot originate a transaction",
 )
